@@ -36,6 +36,8 @@ nc = nt = nout = 0
 for d in sorted(glob.glob(os.path.join(ROOT, "seeded", "*", ""))):
     m = json.load(open(os.path.join(d, "meta.json")))
     notes = m.get("breaks", "")
+    if not notes.strip() and os.path.exists(os.path.join(d, "notes.md")):
+        notes = open(os.path.join(d, "notes.md")).read()
     first = next((l.strip("# ").strip() for l in notes.splitlines() if l.strip() and not l.startswith("```")), "")
     first = re.sub(r"^Change \d+\s*[—-]\s*", "", first)
     sig = m["ran"]["check_result"]["0"]["signatures"][:2]
